@@ -44,6 +44,7 @@ for a in "$@"; do last="$a"; done
 printf '%s\n' "$@" > "$d/argv"
 if [ -f "$last" ]; then cp "$last" "$d/seen.xml"; fi
 echo "stand-in stdout noise /data/x/y (Foo.java:1)"
+if [ -s "$d/stdout" ]; then cat "$d/stdout"; fi
 read -r mode < "$d/mode"
 read -r code < "$d/code"
 case "$mode" in
@@ -55,6 +56,9 @@ exit 97
 """
 
 SHORT_TIMEOUT = 0.25  # seconds; replaces the literal 100 for the `sleep` outcome only
+BIG_TIMEOUT = 3.0  # seconds; watchdog for the large-output outcomes (the stand-in returns at once: anything slower is a block)
+RUN_BOUND = 2.5  # seconds; wall-clock bound of one validator run with the stand-in (oracle: `validator-run-blocked`)
+HARD_DEADLINE = 8.0  # seconds; the harness kills a validator child that is still alive then (a run must never hang the check)
 
 
 class Sandbox:
@@ -70,6 +74,9 @@ class Sandbox:
         self.popen_results = []
         self.to_xml_calls = 0
         self.short_timeout = False
+        self.big_output = False
+        self.children = []
+        self.hard_killed = False
 
     # ------------------------------------------------------------------ environment
     def __enter__(self):
@@ -98,14 +105,47 @@ class Sandbox:
         box = self
 
         def spy(command, timeout):
-            r = real(command, SHORT_TIMEOUT if box.short_timeout else timeout)
+            import threading
+            import time as _time
+
+            t0 = _time.time()
+            box.children.clear()
+            box.hard_killed = False
+
+            def hard_kill():
+                for ch in list(box.children):
+                    if ch.poll() is None:
+                        box.hard_killed = True
+                        ch.kill()
+
+            guard = threading.Timer(HARD_DEADLINE, hard_kill)
+            guard.daemon = True
+            guard.start()
+            try:
+                r = real(command, SHORT_TIMEOUT if box.short_timeout else BIG_TIMEOUT if box.big_output else timeout)
+            finally:
+                guard.cancel()
             box.popen_results.append(
                 {"rc": r.return_code, "timeout": bool(r.timeout), "stderr": r.stderr,
-                 "command": [str(c) for c in command], "asked_timeout": timeout}
+                 "command": [str(c) for c in command], "asked_timeout": timeout,
+                 "wall_s": round(_time.time() - t0, 3), "hard_killed": box.hard_killed}
             )
             return r
 
         odk_validate.run_popen_with_timeout = spy
+        # record the child processes `run_popen_with_timeout` starts (wrapper around the call of Popen in validators.util)
+        from pyxform.validators import util as util_mod
+
+        self.util_mod = util_mod
+        self.saved["Popen"] = util_mod.Popen
+        real_popen = util_mod.Popen
+
+        def recording_popen(*a, **kw):
+            ch = real_popen(*a, **kw)
+            box.children.append(ch)
+            return ch
+
+        util_mod.Popen = recording_popen
         real_to_xml = self.saved["to_xml"]
 
         def counting_to_xml(self_, *a, **kw):
@@ -129,6 +169,7 @@ class Sandbox:
         tempfile.tempdir = s["tempdir"]
         sys.argv = s["argv"]
         odk_validate.run_popen_with_timeout = s["rpwt"]
+        self.util_mod.Popen = s["Popen"]
         survey_mod.Survey.to_xml = s["to_xml"]
         xls2xform.logger.handlers = s["handlers"]
         xls2xform.logger.propagate = s["propagate"]
@@ -149,7 +190,10 @@ class Sandbox:
         data = outcome.get("stderr", "")
         raw = bytes.fromhex(outcome["stderr_hex"]) if "stderr_hex" in outcome else data.encode("utf-8", "surrogatepass")
         (ctl / "stderr").write_bytes(raw)
+        n_out = int(outcome.get("stdout_bytes", 0))
+        (ctl / "stdout").write_bytes((b"stdout line of the validator\n" * (n_out // 29 + 1))[:n_out])
         self.short_timeout = kind == "sleep"
+        self.big_output = bool(outcome.get("big"))
 
     def install_fault(self, flavour):
         """Crash-point injection at the call `open(path, mode="w")` of print_xform_to_file (pyxform/survey.py): a name
